@@ -38,6 +38,7 @@ type Engine struct {
 	GOOS      string
 	GOARCH    string
 	globalCache map[types.Object]*globalDef
+	DepPkgs []*packages.Package // dependencies with functions under contract
 	writtenGlobals map[types.Object][]string
 }
 
@@ -94,12 +95,14 @@ func LoadEngine(repo, verif, goos, goarch string, tags []string) (*Engine, error
 	e.Pkgs = pkgs
 	var visit func(p *packages.Package)
 	seen := map[string]bool{}
+	byPath := map[string]*packages.Package{}
 	visit = func(p *packages.Package) {
 		if seen[p.PkgPath] {
 			return
 		}
 		seen[p.PkgPath] = true
 		e.AllPkgs[p.PkgPath] = p.Types
+		byPath[p.PkgPath] = p
 		for _, ip := range p.Imports {
 			visit(ip)
 		}
@@ -127,8 +130,41 @@ func LoadEngine(repo, verif, goos, goarch string, tags []string) (*Engine, error
 			}
 		}
 	}
+	// dependencies whose functions are verified too (their source is read from the module cache on every run, at
+	// the version go.mod/go.sum pin): registered like the repository's own packages
+	for _, dep := range verifiedDeps {
+		p := byPath[dep]
+		if p == nil || len(p.Syntax) == 0 || p.TypesInfo == nil {
+			continue
+		}
+		if _, taken := e.PkgByName[p.Name]; taken {
+			continue
+		}
+		e.PkgByName[p.PkgPath] = p
+		e.PkgByName[p.Name] = p
+		e.DepPkgs = append(e.DepPkgs, p)
+		for _, f := range p.Syntax {
+			for _, d := range f.Decls {
+				fd, ok := d.(*ast.FuncDecl)
+				if !ok || fd.Body == nil {
+					continue
+				}
+				obj, _ := p.TypesInfo.Defs[fd.Name].(*types.Func)
+				if obj == nil {
+					continue
+				}
+				key := e.keyFor(p, obj)
+				if _, dup := e.Funcs[key]; !dup {
+					e.Funcs[key] = &FuncInfo{Key: key, Pkg: p, Decl: fd, Obj: obj}
+				}
+			}
+		}
+	}
 	return e, nil
 }
+
+// verifiedDeps: import paths of dependencies that have functions under contract.
+var verifiedDeps = []string{"golang.org/x/net/bpf"}
 
 // keyFor: like funcKeyOf but disambiguates the two main packages.
 func (e *Engine) keyFor(p *packages.Package, f *types.Func) string {
